@@ -62,8 +62,10 @@ func c18LocalOnce(c c18Local) (v4, v6 int64, failed string, skip bool) {
 	}
 	h := http.HandlerFunc(func(w http.ResponseWriter, r *http.Request) { w.Header().Set("Connection", "close") })
 	s4, s6 := &http.Server{Handler: h}, &http.Server{Handler: h}
-	go s4.Serve(c18CountingListener{l4, &v4})
-	go s6.Serve(c18CountingListener{l6, &v6})
+	// own counters: the results are assigned by the return statement while the servers may still be accepting
+	n4, n6 := new(int64), new(int64)
+	go s4.Serve(c18CountingListener{l4, n4})
+	go s6.Serve(c18CountingListener{l6, n6})
 	defer s4.Close()
 	defer s6.Close()
 	_, port, _ := net.SplitHostPort(l4.Addr().String())
@@ -100,7 +102,7 @@ func c18LocalOnce(c c18Local) (v4, v6 int64, failed string, skip bool) {
 			failed = fmt.Sprintf("hit %d: code %d, error %q", r.Seq, r.Code, r.Error)
 		}
 	}
-	return atomic.LoadInt64(&v4), atomic.LoadInt64(&v6), failed, false
+	return atomic.LoadInt64(n4), atomic.LoadInt64(n6), failed, false
 }
 
 func runC18Local(c c18Local) error {
